@@ -124,7 +124,7 @@ CHECKS = {
          'inventory handlers, body arrival, periodic Check, confirmation clean-up) checked exhaustively by TLC (Exclusive, NoneAfterBody, Rerequest, '
          'Forgotten, TrackedOrAsked). TLC-simulated histories over a trusted and two untrusted connections (real UntrustedNode objects driven '
          'without sockets) are replayed on the real handlers, trackers and mempool with timestamp shifting; every getdata is recorded with its '
-         'connection and time; TLC evaluates the formulas on the recorded history and validates each step against the specification. Added: bulk replay (every txid of the specification stands for a group of 120 real transactions; all members must be treated alike) and the action ConfirmOos (the confirming block is processed while out of sync).',
+         'connection and time; TLC evaluates the formulas on the recorded history and validates each step against the specification. Added: bulk replay (every txid of the specification stands for a group of 120 real transactions; all members must be treated alike) and the action ConfirmOos (the confirming block is processed while out of sync). Added: TxBurst - the model\'s atomicity assumption for MemPool.AddRequest is checked on the real code with the same inventory arriving on three real connections at the same moment and their periodic checks running at the same moment (ConcurrentExclusive, ConcurrentAsked).',
     design_ref='DESIGN.md 5.5, 6 (C14)',
     note='Connections are stepped sequentially (no concurrent goroutines in this check). F20 (final partial getdata never sent) and F17 (tracker '
          'stopped after reconnect) were repaired.',
